@@ -121,18 +121,32 @@ impl Prop for C08 {
         let picked = inputs::pick(env, rng, &Mix { fixture: 40, dodrio: if env.tier == Tier::Quick { 0 } else { 1 }, generated: 60, max_funcs: 30, valid_only: true });
         let n = if rng.chance(1, 2) { 0 } else { rng.range(1, 4) as u32 };
         let bytes = inputs::splice_customs(&picked.bytes, rng, n);
-        let has_debug = crate::wasmsplit::customs(&bytes).map(|c| c.iter().any(|(n, _)| n.starts_with(b".debug"))).unwrap_or(true);
+        let spliced = inputs::Picked { iref: inputs::input_ref(&picked.iref.source.chars().take(200).collect::<String>(), &bytes), bytes: bytes.clone(), recipe: None };
+        let spliced = inputs::maybe_attach_dwarf(spliced, rng, 1, 6);
+        let (has, synth) = inputs::debug_status(&spliced.iref.source, &spliced.bytes);
+        let bytes = spliced.bytes.clone();
         let mut cfg = CfgBits::from_mask(rng.below(512) as u32);
         cfg.only_stable = false;
         cfg.probe = false;
-        if has_debug {
+        if has && !synth {
             cfg.dwarf = false;
         }
+        if synth && rng.chance(3, 4) {
+            cfg.dwarf = true;
+        }
         let max_len = if env.tier == Tier::Quick { 6 } else { 10 };
-        let ops = draw_ops(rng, &cfg, max_len);
+        let mut ops = draw_ops(rng, &cfg, max_len);
+        if cfg.dwarf && synth {
+            // the fixpoint clause is not claimed through walrus's own DWARF output (documented as experimental)
+            for o in ops.iter_mut() {
+                if matches!(o, Op::Reparse { .. }) {
+                    *o = Op::Emit;
+                }
+            }
+        }
         let par = if rng.chance(1, 3) { Some(super::c09::draw_knobs(rng)) } else { None };
         let case = Case {
-            input: inputs::input_ref(&picked.iref.source.chars().take(200).collect::<String>(), &bytes),
+            input: inputs::input_ref(&spliced.iref.source, &bytes),
             cfg,
             ops,
             ambient: Ambient { entropy: rng.u64(), arena_burn: *rng.pick(&[0u32, 1, 5, 1000, 65536, 70001]), heap_pad: rng.below(4) as u8 },
@@ -344,7 +358,7 @@ impl Prop for C08 {
             }
         }
         let bytes = inputs::bytes_of(&c.input);
-        if let Some(secs) = crate::wasmsplit::split(&bytes) {
+        if let Some(secs) = crate::wasmsplit::split(&bytes).filter(|_| !c.cfg.dwarf) {
             for s in secs.iter().rev() {
                 let mut b = bytes[..s.range.start].to_vec();
                 b.extend_from_slice(&bytes[s.range.end..]);
